@@ -171,6 +171,17 @@ def check_call(x, n, m, c, d, dtype, fx, exp):
     du = np.asarray(du)
     if du.shape != (N,):
         return ('length', 'n=%d m=%d: output shape %r for an input of length %d' % (n, m, du.shape, N)), None
+    # the same request with numpy integers for n and m: the same output, bit for bit
+    with warnings.catch_warnings(), np.errstate(all='ignore'):
+        warnings.simplefilter('ignore')
+        try:
+            du2 = np.asarray(fd_derivative(fx, xa, np.int64(n), np.int32(m)))
+        except Exception as e:
+            return ('numpy-integer-arguments:raised-%s' % type(e).__name__,
+                    'n=%d m=%d N=%d as numpy integers: fd_derivative raised %s: %s' % (n, m, N, type(e).__name__, e)), None
+    if du2.shape != du.shape or du2.tobytes() != du.tobytes():
+        return ('numpy-integer-arguments:differs', 'n=%d m=%d as numpy integers give %r, as Python integers %r'
+                % (n, m, du2.tolist(), du.tolist())), None
     if not np.array_equal(fx, fx_before):
         return ('input-modified', 'the sample array was modified in place'), None
     if du.dtype.kind not in 'fiu' or not np.all(np.isfinite(du.astype(float))):
